@@ -10,8 +10,19 @@ Local Open Scope string_scope. Local Open Scope list_scope.
 Theorem C06_all_arms_ok : forallb (arm_ok scadop_decl) macro_arms = true.
 Proof. vm_compute. reflexivity. Qed.
 
-Theorem C06_arm_count : List.length macro_arms = 136%nat.
-Proof. reflexivity. Qed.
+(* every documented invocation form (the `#patterns` lines of the macro documentation, regenerated) is accepted by an arm of the
+   same macro with the same shape: same positional arguments, keywords, bracketed vectors and children, in the same order *)
+Theorem C06_documented_forms_have_arms : forallb (doc_has_arm macro_arms) macro_doc_forms = true.
+Proof. vm_compute. reflexivity. Qed.
+(* hence every documented form is handled by an arm that evaluates each argument once and builds the node the form denotes *)
+Theorem C06_documented_forms_ok : forall d, In d macro_doc_forms ->
+  exists a, In a macro_arms /\ m_macro a = fst (fst d) /\ dshapes_eqb (map shape_of (m_pattern a)) (snd d) = true /\ arm_ok scadop_decl a = true.
+Proof.
+  intros [[m txt] sh] Hin. pose proof C06_documented_forms_have_arms as H. rewrite forallb_forall in H. specialize (H _ Hin).
+  unfold doc_has_arm in H. apply existsb_exists in H. destruct H as [a [Ha Hb]]. apply andb_prop in Hb. destruct Hb as [Hm Hs].
+  exists a. split; [exact Ha|]. split; [apply String.eqb_eq; exact Hm|]. split; [exact Hs|].
+  pose proof C06_all_arms_ok as Hall. rewrite forallb_forall in Hall. apply Hall. exact Ha.
+Qed.
 
 (* what passing means: every argument expression is evaluated exactly once ... *)
 Theorem C06_evaluated_once : forall a, In a macro_arms ->
